@@ -435,6 +435,50 @@ fn sweep_other_generators(rep: &mut Report, tier: &str, seed: u64) {
     rep.streams.push(st);
 }
 
+/// growth of the running time with the size of a construct whose work is linear in its size: t(4n) against
+/// t(n), each the minimum of three in-process runs. Linear work gives a factor of about 4, quadratic work 16;
+/// a violation needs both a factor above 11 and more than 0.4 s at 4n, so that noise on tiny times cannot raise it.
+fn growth_stream(rep: &mut Report) {
+    let mut st = Stream::new("scale/growth", "oracle", "constructs whose work is linear in n - path data, point lists, siblings, a sum of n terms, a loop of n passes, n text lines, a `^` chain, n variables, one long comment / text / attribute value in real SVG - transformed at n and at 4n (minimum of three runs each): the time may grow by the factor 4 of the work, not by its square (violation: factor above 11 with more than 0.4 s at 4n)");
+    let kinds: &[(&str, usize)] = &[("path", 20000), ("points", 30000), ("siblings", 1500), ("expr-sum", 5000), ("loop", 250), ("chain-prev", 1000), ("var-chain", 1000), ("text-lines", 1000), ("bulk-real", 200000)];
+    let time_of = |doc: &[u8]| -> Option<f64> {
+        let text = String::from_utf8_lossy(doc).to_string();
+        let mut best = f64::MAX;
+        for _ in 0..3 {
+            let t0 = std::time::Instant::now();
+            let r = crate::util::transform(&text, &crate::util::default_cfg());
+            let dt = t0.elapsed().as_secs_f64();
+            if r.is_err() { return None; }
+            best = best.min(dt);
+            if dt > 30.0 { break; }
+        }
+        Some(best)
+    };
+    for (k, n) in kinds {
+        let mk = |n: usize| -> Vec<u8> {
+            match *k {
+                "text-lines" => { let mut s = String::from("<svg><rect wh=\"50 20\" text=\""); for i in 0..n { s.push_str(&format!("line {i}\\n")); } s.push_str("end\"/></svg>"); s.into_bytes() }
+                "bulk-real" => format!("<svg xmlns=\"http://www.w3.org/2000/svg\"><!-- {} --><desc>{}</desc><rect width=\"1\" height=\"1\" data-x=\"{}\"/></svg>", "c ".repeat(n), "lorem ".repeat(n), "v ".repeat(n)).into_bytes(),
+                other => scaled(other, n),
+            }
+        };
+        let (small, big) = (mk(*n), mk(4 * *n));
+        st.case(&format!("{k}:{n}"), true, || json!({"kind": k, "n": n}));
+        let (Some(t1), Some(t4)) = (time_of(&small), time_of(&big)) else {
+            rep.violation(Violation { kind: "oracle", stream: st.name.clone(), signature: "C01:panic".into(), what: format!("panic while timing {k}"), replay: json!({"input_hex": hex(&small)}), confirmed_on_impl: true });
+            continue;
+        };
+        let factor = t4 / t1.max(1e-4);
+        st.tally(&format!("{k}: {:.0} ms -> {:.0} ms", t1 * 1000.0, t4 * 1000.0));
+        if factor > 11.0 && t4 > 0.4 {
+            rep.violation(Violation { kind: "oracle", stream: st.name.clone(), signature: format!("C01:superlinear:{k}"), what: format!("{k}: {:.3} s at n = {n}, {:.3} s at n = {} - four times the work takes {:.1} times as long", t1, t4, 4 * n, factor), replay: json!({"input_hex": hex(&big), "kind": k, "n": 4 * n, "limit_s": (t1 * 8.0).max(0.4)}), confirmed_on_impl: true });
+        } else {
+            st.exact += 1;
+        }
+    }
+    rep.streams.push(st);
+}
+
 pub fn run(rep: &mut Report, tier: &str, seed: u64) -> Result<(), String> {
     let mut rng = Rng::new(seed);
     let thorough = tier == "thorough";
@@ -476,6 +520,11 @@ pub fn run(rep: &mut Report, tier: &str, seed: u64) -> Result<(), String> {
     }
     judge_isolated(rep, &mut st, &cases, &tags, Duration::from_secs(80), 1000);
     rep.streams.push(st);
+
+    // "time proportional to the work the document explicitly asks for": the limits above only catch what
+    // exceeds a budget at the sizes tried; a quadratic scan of long data stays far below it in an optimised
+    // build. So the GROWTH is measured as well: the same construct at n and at 4n.
+    growth_stream(rep);
 
     let mut st = Stream::new("chains/href", "oracle", "all 640 small documents combining a use / reuse whose href is `^`, an id, itself or a second use / reuse (with and without ids, cycles included) with a later element that refers to it by `^` or by id (position, connector, surround): each in a child process with a 10 s limit, result or error required");
     let cases = ref_chain_docs();
